@@ -30,8 +30,8 @@ PLANS = {
     ("C02", "thorough"): dict(ex="3:2:2,2:3:3", random=400, rk=5, rlen=24, rq=3, snap=1, shards=96, mc="StoreMachine_thorough.cfg"),
     ("C03", "quick"): dict(ex="3:2:-1,2:3:-1", random=150, rk=5, rlen=30, rq=0, snap=1, shards=16, mc="StoreMachine.cfg", dups=1500),
     ("C03", "thorough"): dict(ex="3:3:-1", random=2000, rk=5, rlen=30, rq=0, snap=1, shards=96, mc="StoreMachine_thorough.cfg", dups=30000),
-    ("C15", "quick"): dict(ex="3:1:1,2:2:1", random=30, rk=4, rlen=14, rq=2, snap=1, shards=16, mc="MCDerive.cfg", derive=1),
-    ("C15", "thorough"): dict(ex="3:2:1,2:3:1", random=300, rk=5, rlen=20, rq=2, snap=1, shards=96, mc="MCDerive_thorough.cfg", derive=1),
+    ("C15", "quick"): dict(ex="3:1:1,2:2:1", random=30, rk=4, rlen=14, rq=2, snap=1, shards=16, mc="MCDerive.cfg", derive=1, random2=10, rk2=7, rlen2=16),
+    ("C15", "thorough"): dict(ex="3:2:1,2:3:1", random=300, rk=5, rlen=20, rq=2, snap=1, shards=96, mc="MCDerive_thorough.cfg", derive=1, random2=60, rk2=8, rlen2=24),
     ("C09", "quick"): dict(ex="3:2:2", random=60, rk=4, rlen=16, rq=2, snap=0, shards=16, mc="MCCounts.cfg"),
     ("C09", "thorough"): dict(ex="3:2:2,2:3:3", random=600, rk=5, rlen=24, rq=3, snap=0, shards=96, mc="MCCounts_thorough.cfg"),
 }
@@ -88,6 +88,8 @@ def gen_traces(gv, plan, work, extra=None):
         args = ["mut", "--out", out, "--from", a, "--to", b, "--ex", plan["ex"], "--random", plan["random"],
                 "--rk", plan["rk"], "--rlen", plan["rlen"], "--rq", plan["rq"], "--snap", plan["snap"],
                 "--seed", seed(), "--derive", plan.get("derive", 0)]
+        if plan.get("random2"):
+            args += ["--random2", plan["random2"], "--rk2", plan["rk2"], "--rlen2", plan["rlen2"]]
         if extra:
             args += extra
         jobs.append((out, args))
